@@ -490,7 +490,9 @@ func (bc *BlockChain) insertSidechain(chain types.Blocks) error {
 	// now we can safely handle the side chain with some policies
 	var block *types.Block
 	for _, block = range chain {
-		if !bc.HasBlock(block.Hash(), block.NumberU64()) {
+		// A crash between the body and the header write of WriteBlock leaves a body without its header:
+		// such a block is not "had" yet, write it again.
+		if !bc.HasBlock(block.Hash(), block.NumberU64()) || !bc.HasHeader(block.Hash(), block.NumberU64()) {
 			if err := bc.WriteBlockWithoutState(block); err != nil {
 				return err
 			}
@@ -525,6 +527,10 @@ func (bc *BlockChain) insertSidechain(chain types.Blocks) error {
 		numbers = append(numbers, parent.Number.Uint64())
 
 		parent = bc.GetHeader(parent.ParentHash, parent.Number.Uint64()-1)
+		if parent == nil {
+			// reported as "missing parent" below
+			break
+		}
 		local = bc.GetHeaderByNumber(parent.Number.Uint64())
 		logging.Debug("Importing sidechain get parent without state.", "number", parent.Number, "hash", parent.Hash().String())
 	}
